@@ -309,6 +309,31 @@ pub fn consume_read<R: Read>(mut r: R, reqs: &[usize]) -> (Vec<u8>, Result<(), S
     }
 }
 
+/// like `consume_read`, with a read into an empty buffer before every read: that asks for nothing, must give Ok(0) and must
+/// leave the reader as it was
+pub fn consume_read_with_empty<R: Read>(mut r: R, reqs: &[usize]) -> (Vec<u8>, Result<(), String>) {
+    let mut out = Vec::new();
+    let mut i = 0usize;
+    let mut buf = vec![0u8; 1 << 16];
+    loop {
+        match r.read(&mut buf[..0]) {
+            Ok(0) => {}
+            Ok(n) => return (out, Err(format!("EMPTY-READ-GAVE-OCTETS: {n}"))),
+            Err(e) => return (out, Err(format!("EMPTY-READ-FAILED: {e}"))),
+        }
+        let want = if reqs.is_empty() { buf.len() } else { reqs[i % reqs.len()].clamp(1, buf.len()) };
+        i += 1;
+        match r.read(&mut buf[..want]) {
+            Ok(0) => return (out, Ok(())),
+            Ok(n) => out.extend_from_slice(&buf[..n]),
+            Err(e) => return (out, Err(e.to_string())),
+        }
+        if i > 50_000_000 {
+            return (out, Err("harness: too many reads".into()));
+        }
+    }
+}
+
 pub fn consume_to_end<R: Read>(mut r: R) -> (Vec<u8>, Result<(), String>) {
     let mut out = Vec::new();
     match r.read_to_end(&mut out) {
